@@ -643,7 +643,42 @@ fn gen_outbound(kind: OutKind, ch: &mut Choices) -> Plan {
         plan.p_cancel = *ch.pick(&[0u32, 3]);
         plan.tags.push("motif:backpressure-free-window".into());
     }
-    if kind == OutKind::C13 && matches!(role, Role::S3 | Role::C3) && ch.chance(1, 5) {
+    if kind == OutKind::C13 && ch.chance(1, 5) {
+        // motif: a window of one, many short senders and frequent cancellations: woken waiters find the
+        // slot taken by a fresh sender, park again at the head, are woken again - and are cancelled then
+        match role {
+            Role::S5 => {
+                plan.cfg.max_send = 1;
+                plan.cfg.hs_max_send = None;
+                plan.peer.connect.props.retain(|(id, _)| *id != 33);
+            }
+            Role::S3 => {
+                plan.cfg.max_send = 1;
+                plan.cfg.hs_max_send = None;
+            }
+            Role::C5 => {
+                plan.peer.connack_props.retain(|(id, _)| *id != 33);
+                plan.peer.connack_props.push((33, PropVal::U16(1)));
+            }
+            Role::C3 => plan.cfg.max_send = 1,
+        }
+        plan.senders.clear();
+        for _ in 0..(4 + ch.choose(3)) {
+            plan.senders.push((0..(1 + ch.choose(2))).map(|_| if ch.chance(1, 5) { AppOp::Ready } else { AppOp::PubQ1 { len: 1, pid: None } }).collect());
+        }
+        plan.p_cancel = *ch.pick(&[15u32, 40]);
+        plan.p_ext = *ch.pick(&[400u32, 700]);
+        plan.faults.p_wr_stall = 0;
+        if ch.chance(1, 2) {
+            // ... or are woken while write back-pressure is on (QoS 0 publishes fill the buffer during a
+            // stall), park again, and are woken a second time when it lifts
+            plan.senders.insert(0, (0..(2 + ch.choose(2))).map(|_| AppOp::PubQ0 { len: 40 }).collect());
+            plan.faults.p_wr_stall = *ch.pick(&[40u32, 120]);
+            plan.cfg.wr_hw = 64;
+            plan.cfg.wr_lw = 16;
+        }
+        plan.tags.push("motif:window-of-one-churn".into());
+    } else if kind == OutKind::C13 && matches!(role, Role::S3 | Role::C3) && ch.chance(1, 5) {
         // motif: write back-pressure ends while the dispatcher is paused because the service is not ready
         // (receive window of one, its handler busy until the closing phase): the back-pressure-off
         // notification must still be delivered
@@ -688,6 +723,30 @@ fn gen_outbound(kind: OutKind, ch: &mut Choices) -> Plan {
         plan.p_immediate = *ch.pick(&[0u32, 1000]);
         plan.cfg.ctl_gated = true;
         plan.tags.push("motif:stopped-sink-writable-io".into());
+    }
+    if kind == OutKind::C14 && ch.chance(1, 3) {
+        // write back-pressure episodes while receipts are held and released (QoS 0 publishes fill the
+        // write buffer during a stall)
+        plan.senders.push((0..(2 + ch.choose(3))).map(|_| AppOp::PubQ0 { len: 40 }).collect());
+        plan.faults.p_wr_stall = *ch.pick(&[20u32, 80]);
+        plan.cfg.wr_hw = 64;
+        plan.cfg.wr_lw = 16;
+    }
+    if kind == OutKind::C08 && ch.chance(1, 6) {
+        // motif: a streamed publish whose next chunk parks on write back-pressure, and is cancelled there
+        // (future and handle dropped with payload still owed): the connection must be aborted, not
+        // continued with a short payload
+        let stream = if ch.chance(1, 2) {
+            AppOp::StreamQ0 { size: 120, chunks: vec![40, 40, 40] }
+        } else {
+            AppOp::StreamQ1 { size: 120, chunks: vec![40, 40, 40], pid: None }
+        };
+        plan.senders.insert(0, vec![stream]);
+        plan.faults.p_wr_stall = *ch.pick(&[60u32, 200]);
+        plan.cfg.wr_hw = *ch.pick(&[16usize, 48]);
+        plan.cfg.wr_lw = 8;
+        plan.p_cancel = *ch.pick(&[8u32, 25]);
+        plan.tags.push("motif:stream-cancelled-on-backpressure".into());
     }
     if kind == OutKind::C08 && ch.chance(1, 3) {
         plan.faults.p_wr_stall = 3;
